@@ -37,10 +37,24 @@ def headLen : Bytes → Nat
   | [] => 0
   | b :: rest => if CRLFCRLF.isPrefixOf (b :: rest) then 4 else 1 + headLen rest
 
+/-- how many bytes of the first read lie after the head: the reader's position when the header loop ends (the same steps as `Http.parse`) -/
+def remLen (first : Bytes) : Nat :=
+  let r0 := (P.readWhile (· != P.SP) first).2
+  match r0 with
+  | _ :: r1 =>
+    let r2 := (P.readWhile (fun b => b != P.SP && b != Http.QM) r1).2
+    let r5 : Bytes := match r2 with
+      | c :: r3 => if c == P.SP then r3 else ((P.readWhile (· != P.SP) r3).2).drop 1
+      | [] => []
+    match P.consume Http.HTTP11 r5 with
+    | some r6 => (match Http.headers (r6.length + 1) r6 [] [] with | .ok (_, _, rem) => rem.length | _ => 0)
+    | none => 0
+  | [] => 0
+
 /-- how many bytes `read_payload` still takes from the stream after the first read: the announced body minus what came with the head -/
 def needOf (first : Bytes) (p : Parsed) : Nat :=
   match p.payload with
-  | some b => b.length - min b.length (first.length - headLen first)
+  | some b => b.length - min b.length (remLen first)
   | none => 0
 
 /-- the per-request state of the reused `Request` object that a handler could observe -/
